@@ -42,6 +42,14 @@ def _(p):
     return f"{found[0][0]}: {found[0][1]}" if found else None
 
 
+@replay("c17_generated")
+def _(p):
+    from harness import c17_native
+
+    found = c17_native.check_generated(p["formula"], set(p["used"]))
+    return f"{found[0][0]}: {found[0][1]}" if found else None
+
+
 @replay("c17_sources")
 def _(p):
     from harness import c17_native
